@@ -5,8 +5,8 @@
    specification accessory (RFC 5054 3072-bit group, SHA-512, HAP padding).  The
    tie to the source is the correspondence check harness/c02.py. *)
 From Coq Require Import List NArith ZArith Arith Bool Lia.
-From AHK Require Import Lib.Res Lib.ByteStr Model.Sha512 Model.Srp Model.SrpBig
-  Proofs.Sha512 Proofs.SrpBytes Proofs.Srp Proofs.SrpBig Proofs.SrpTop.
+From AHK Require Import Lib.Res Lib.ByteStr Model.Sha512 Model.Srp Model.SrpServer Model.SrpBig
+  Proofs.Sha512 Proofs.SrpBytes Proofs.Srp Proofs.SrpServer Proofs.SrpBig Proofs.SrpTop.
 Import ListNotations.
 Local Open Scope Z_scope.
 
@@ -170,6 +170,70 @@ Theorem srp_big_refines_server : forall I P salt b A_b M1_b,
     0 <= b -> hap_server_x powm_fast I P salt b A_b M1_b = hap_server I P salt b A_b M1_b.
 Proof. exact hap_server_fast. Qed.
 
+(* ==== extension: aiohomekit.crypto.srp.SrpServer (the accessory side the package exports and the
+   repository's test accessory uses), modelled as written in Model/SrpServer.v.
+   [hap_srpserver PM guard]: guard = false is the class as it is today; guard = true is the class with
+   RFC 5054's "abort if A mod N = 0" in set_client_public_key. *)
+
+(* every value SrpServer computes for a 384-byte client public key - B_b, S, K, the expected M1,
+   its own proof M2 - is the specification accessory's, byte for byte, for every user name, setup
+   code, salt bytes, ephemeral b >= 0 and received proof; verify_clients_proof is the INTEGER
+   comparison with the expected M1; get_proof(int) re-pads the int to 64 bytes *)
+Theorem srpserver_refines_spec : forall (I P salt : bytes) b (A_b M1_b : bytes),
+    0 <= b -> length A_b = 384%nat -> all_bytes A_b = true ->
+    let s := hap_server I P salt b A_b M1_b in
+    hap_srpserver powm false I P salt b (inr A_b) M1_b =
+    Ok {| p_B := s_B s; p_B_b := s_B_b s; p_A_b := A_b; p_S := s_S s; p_K := s_K s; p_M1 := s_M1 s;
+          p_ok := (from_bytes M1_b =? from_bytes (s_M1 s)); p_M2 := s_M2 s;
+          p_M2_int := rbind (padded (from_bytes M1_b) PROOF_LENGTH)
+                            (fun al => Ok (from_bytes (sha512 (A_b ++ al ++ s_K s)))) |}.
+Proof. exact hap_srpserver_closed. Qed.
+
+(* set_client_public_key(int A) = set_client_public_key(PAD(A)) for every int that fits 384 bytes
+   (leading zero bytes of A included) *)
+Theorem srpserver_int_public_key : forall guard (I P salt : bytes) b A (M1_b : bytes),
+    0 <= A < 256 ^ Z.of_nat HK_KEY_LENGTH ->
+    hap_srpserver powm guard I P salt b (inl A) M1_b =
+    hap_srpserver powm guard I P salt b (inr (PAD HK_KEY_LENGTH A)) M1_b.
+Proof. exact hap_srpserver_int_path. Qed.
+
+(* with the guard, SrpServer accepts a 64-byte proof iff the specification accessory does *)
+Theorem srpserver_guarded_iff_spec : forall (I P salt : bytes) b (A_b M1_b : bytes),
+    0 <= b -> length A_b = 384%nat -> all_bytes A_b = true ->
+    length M1_b = 64%nat -> all_bytes M1_b = true ->
+    ((exists r, hap_srpserver powm true I P salt b (inr A_b) M1_b = Ok r /\ p_ok r = true) <->
+     s_ok (hap_server I P salt b A_b M1_b) = true).
+Proof. exact hap_srpserver_guarded_iff_spec. Qed.
+
+(* REFUTED for the class as it is (no guard): "SrpServer accepts only what the specification
+   accessory accepts".  For EVERY setup code P, salt and b > 0, the message (A = 0, M1 = a hash of
+   public values only - the setup code is not needed) is accepted, with session key H(PAD(0));
+   the specification accessory rejects it (A mod N = 0).  Replayed on the implementation by
+   harness/c02.py (stream srpserver, case zero-key). *)
+Theorem srpserver_zero_key_refuted : forall (I P salt : bytes) b,
+    0 < b ->
+    let B_b := sv_public sha512 N3072 G3072 HK_KEY_LENGTH I P salt b in
+    let forged := sha512 (HGROUP_BYTES ++ sha512 I ++ salt ++ PAD HK_KEY_LENGTH 0 ++ B_b
+                          ++ sha512 (PAD HK_KEY_LENGTH 0)) in
+    exists r, hap_srpserver powm false I P salt b (inr (PAD HK_KEY_LENGTH 0)) forged = Ok r /\
+              p_B_b r = B_b /\ p_ok r = true /\ p_K r = sha512 (PAD HK_KEY_LENGTH 0) /\
+              s_ok (hap_server I P salt b (PAD HK_KEY_LENGTH 0) forged) = false.
+Proof. exact hap_srpserver_zero_key. Qed.
+
+(* the real controller against SrpServer: the exchange completes, keys and proofs agree *)
+Theorem srp_client_srpserver_agree : forall (I P salt : bytes) a b,
+    0 <= a -> 0 <= b -> length salt = 16%nat -> all_bytes salt = true ->
+    let B_b := sv_public sha512 N3072 G3072 HK_KEY_LENGTH I P salt b in
+    exists r q, hap_client powm I P a salt B_b = Ok r /\
+      hap_srpserver powm true I P salt b (inr (r_A_b r)) (r_M1 r) = Ok q /\
+      p_B_b q = B_b /\ p_ok q = true /\ p_K q = r_K r /\ cl_accepts r (p_M2 q) = true.
+Proof. exact hap_client_srpserver. Qed.
+
+(* refinement of the evaluator for SrpServer (Uint63 axioms, as srp_big_refines_client) *)
+Theorem srp_big_refines_srpserver : forall guard I P salt b pub M1_b,
+    hap_srpserver powm_fast guard I P salt b pub M1_b = hap_srpserver powm guard I P salt b pub M1_b.
+Proof. exact hap_srpserver_fast. Qed.
+
 (* ---- non-vacuity: an all-zero 16-byte salt and the real group meet the hypotheses
    of the instance theorems; a toy instance (one-byte checksum as hash, N = 2027,
    g = 2, leading-zero salt) meets every hypothesis of srp_proof_accepted_any_hash
@@ -186,6 +250,9 @@ Example c02_nonvacuous_exchange :
   1 < 2027 /\ Z.gcd 2 2027 = 1 /\ (Z.to_N 2027 <= P256 2)%N /\
   length (0 :: 0 :: repeat 7 14)%N = 16%nat /\ all_bytes (0 :: 0 :: repeat 7 14)%N = true.
 Proof. exact toy_exchange_ok. Qed.
+
+Example c02_nonvacuous_srpserver : toy_srpserver_check = true.
+Proof. exact toy_srpserver_ok. Qed.
 
 Print Assumptions srp_secret_agree.
 Print Assumptions srp_powm_is_modexp.
@@ -205,3 +272,9 @@ Print Assumptions sha512_digest_shape.
 Print Assumptions sha512_nist_vectors.
 Print Assumptions srp_big_refines_client.
 Print Assumptions srp_big_refines_server.
+Print Assumptions srpserver_refines_spec.
+Print Assumptions srpserver_int_public_key.
+Print Assumptions srpserver_guarded_iff_spec.
+Print Assumptions srpserver_zero_key_refuted.
+Print Assumptions srp_client_srpserver_agree.
+Print Assumptions srp_big_refines_srpserver.
